@@ -58,6 +58,10 @@ def cases(draw, tier="quick"):
     P["ops"] = [ops[j] for j in sorted(range(len(ops)), key=lambda j: (0 if ops[j][0] == "listen" and j < 4 else 1, perm[j]))]
     P["kills"] = draw(st.sampled_from([0, 1, 1, 2, 3, 5]))
     P["w_kill"] = draw(st.sampled_from([1, 2, 4]))
+    if draw(st.integers(0, 3)) == 0:
+        # the last connect() of a side waits for a loss + replacement of the connection (earlier subchannels still open)
+        P["hold_last_open"] = draw(st.sampled_from([[1, 0], [0, 1], [1, 1]]))
+        P["kills"] = max(1, P["kills"])
     P["bufsize"] = draw(st.sampled_from([1 << 16, 1 << 16, 200, 5000]))
     P["max_reconnects"] = 6
     P["dilate_at"] = [draw(st.sampled_from(["start", "tape"])), draw(st.sampled_from(["start", "tape"]))]
